@@ -493,7 +493,6 @@ theorem pinv_transition (a : PAcc) (c offset : Nat) (h : PInv a) : PInv (transit
            intro h1 h2 s rest heq
            simp only [List.cons_append, List.cons.injEq] at heq
            exact hf h1 h2 s rest0 (by rw [heq.1]))
-    | (trace_state; sorry)
 
 
 theorem pinv_loop (a : PAcc) (offset : Nat) (s : Bytes) (a' : PAcc) (off' : Nat)
